@@ -262,6 +262,47 @@ func runC13(tier string) int {
 			}
 		}
 	}
+	// dictionary sweep: every identifier-like literal of the compiler's own source as the NAME of a constant and as
+	// the VALUE of a constant, at every single use site and at all sites at once
+	words := dictIdents()
+	templateIdents := map[string]bool{}
+	for _, id := range regexp.MustCompile(`[A-Za-z_][A-Za-z0-9_]*`).FindAllString(c13Template, -1) {
+		templateIdents[id] = true
+	}
+	sweepDone := r.Parallel(uint64(len(words))*2, func(w int, idx uint64) {
+		word := words[idx/2]
+		d := constDefs{[]string{"const " + word + " = 5"}, word, "5", false}
+		if idx%2 == 1 {
+			if word == "K" {
+				return
+			}
+			d = constDefs{[]string{"const K = " + word}, "K", word, false}
+		}
+		if templateIdents[d.name] {
+			return // the template itself uses this identifier: a constant of that name would (rightly) rewrite it
+		}
+		head, blank := d.lines[0]+"\n", "\n"
+		for site := -1; site < c13Sites; site++ {
+			with, without := map[int]string{}, map[int]string{}
+			for s := 0; s < c13Sites; s++ {
+				if s == 18 && !identOnly(d.expanded) {
+					continue // a mart item must be an identifier when written out
+				}
+				if site == -1 || s == site {
+					with[s], without[s] = d.name, d.expanded
+				}
+			}
+			if len(with) == 0 {
+				continue
+			}
+			r.Add("dictionary_sweep", 1)
+			eval(fmt.Sprintf("dictionary[%s] site=%d", strings.Join(d.lines, ";"), site), head+c13Fill(with), blank+c13Fill(without), false)
+		}
+	})
+	if !sweepDone {
+		r.NotExhaustive("dictionary sweep not completed")
+	}
+	r.Set("dictionary_words", len(words))
 	// the size dimension: chains of K constants (each defined from the previous one) and K independent constants,
 	// for every K up to a bound; used as command arguments, comparison values and case values
 	maxK := 60
@@ -327,7 +368,7 @@ func runC13(tier string) int {
 	r.Assume("values with parentheses are only used at sites where nested parentheses can be written out literally (command arguments, value(...))",
 		"const lines are replaced by blank lines so that line markers stay comparable")
 	return r.Finish(r.Get("evaluations"), r.Get("nontrivial"),
-		"17 definition sets (a value naming a constant that is defined later; single token, multi-token, parenthesised, const from const two levels deep, hex, negative, multi-byte value; constant names with a non-ASCII first letter, a non-ASCII letter inside, a leading underscore, lower case with digits) x every single use site, every pair and triple (thorough: quadruple) and all 28 documented use sites (incl. the var argument of AutoVar commands with var_name_arg_position 0 and 1) (five of them inside a larger expression) at once (command argument incl. nested, flag/var/defeated operands, comparison values incl. value(), switch operand and case value, AutoVar argument and comparison, goto target, map-script table var/value and inline body, mart item) + 8 non-positions (command name, movement step, label, moves() step, text content, script/text/mapscripts names, raw) + use before definition + redefinition + chains of K constants and K independent constants for every K up to the bound in the coverage; outputs compared byte for byte with line markers on, optimize on/off; also every program of the control-flow families (C01 / C03 / C04 bounds) with every operand, comparison value and case value written as a constant; non-trivial = multi-token or chained definition")
+		"17 definition sets (a value naming a constant that is defined later; single token, multi-token, parenthesised, const from const two levels deep, hex, negative, multi-byte value; constant names with a non-ASCII first letter, a non-ASCII letter inside, a leading underscore, lower case with digits) x every single use site, every pair and triple (thorough: quadruple) and all 28 documented use sites (incl. the var argument of AutoVar commands with var_name_arg_position 0 and 1) (five of them inside a larger expression) at once (command argument incl. nested, flag/var/defeated operands, comparison values incl. value(), switch operand and case value, AutoVar argument and comparison, goto target, map-script table var/value and inline body, mart item) + 8 non-positions (command name, movement step, label, moves() step, text content, script/text/mapscripts names, raw) + use before definition + redefinition + every identifier-like literal of the compiler's own source as a constant's name and as its value at every site + chains of K constants and K independent constants for every K up to the bound in the coverage; outputs compared byte for byte with line markers on, optimize on/off; also every program of the control-flow families (C01 / C03 / C04 bounds) with every operand, comparison value and case value written as a constant; non-trivial = multi-token or chained definition")
 }
 
 var (
